@@ -50,18 +50,28 @@ ASSUMPTIONS = [
     'validateWithProfile(name, value, [CSS3_FONT_FACE]) (valid and matching), never with the ordinary context',
     'an @font-face *rule* is valid iff all its declarations are and font-family and src are present (documented by the code); '
     'the conjunction clause for @font-face therefore uses blocks that contain both',
-    'a syntax-level rejection (declaration dropped by the parser, xml.dom.SyntaxErr from Property()/setProperty) is an admissible '
-    'answer; it must be the same answer for every route and spelling of the pair',
+    'a syntax-level rejection (declaration dropped by the parser, xml.dom.SyntaxErr from Property()/setProperty) and the verdict '
+    '"invalid" both mean "not reported valid" and are interchangeable between routes and spellings (counted as '
+    'routes.invalid-vs-rejected); valid versus rejected is a violation',
     'the registry route cssutils.profile.validate(name, text) is given the comment-free text: the value text handed to validation '
     '(Property.value), and the raw spelling for canonical / case / inner-white-space spellings',
     'comments are inserted only where the value grammar has S*; between two components a comment is inserted next to white space',
     'escapes inside keywords (r\\65 d) are not a spelling dimension of this check',
     'C13.resolution reads the docstring of CSSStyleDeclaration.validating: the sheet always wins, then the declaration flag, default on',
+    'tiers: every pair gets the canonical spelling on every route. quick: invalid pairs that are not the first menu entry of their value '
+    'class ("light" pairs) get only {upper case, trailing comment} as deviations and a core set of DOM routes; valid pairs and class '
+    'representatives get every single deviation. thorough: every pair gets every single deviation (k=1) with the round trip and the '
+    'parser switch; valid pairs and class representatives also get k=2 (value upper case / name upper case / !important x any other '
+    'deviation)',
+    'signatures: C13.grammar names the property only when the table entry of that property is the essential ingredient; where a one-step '
+    'counterfactual shows another ingredient (same value without "+" accepted; same pair accepted once the CSS3 profiles are gone; only '
+    'the DOM routes or only the registry wrong = normalisation before validation) the signature names that ingredient and the value '
+    'class instead. C13.routes signatures carry deviation kind @ site and value class, never the value',
 ]
 FLOORS = {
-    'quick': {'outcomes': 400, 'set:names.both-verdicts': 110, 'counter:pairs.valid': 1500, 'counter:pairs.invalid': 20000,
+    'quick': {'outcomes': 200, 'set:names.both-verdicts': 110, 'counter:pairs.valid': 1500, 'counter:pairs.invalid': 20000,
               'counter:grammar.decided-valid': 500, 'counter:grammar.decided-invalid': 8000, 'counter:grammar21.decided-valid': 300},
-    'thorough': {'outcomes': 400, 'set:names.both-verdicts': 110, 'counter:pairs.valid': 1500, 'counter:pairs.invalid': 20000,
+    'thorough': {'outcomes': 200, 'set:names.both-verdicts': 110, 'counter:pairs.valid': 1500, 'counter:pairs.invalid': 20000,
                  'counter:grammar.decided-valid': 500, 'counter:grammar.decided-invalid': 8000, 'counter:grammar21.decided-valid': 300},
 }  # fmt: skip
 
@@ -97,7 +107,7 @@ def bounds(tier):
         'menu_size': len(m),
         'menu_classes': sorted({e['cls'] for e in m}),
         'pairs': len(all_names()) * len(m),
-        'deviations_k': 1 if q else 2,
+        'deviations_k': '1 (light pairs: upper case + trailing comment only)' if q else '1 for every pair, 2 for valid pairs and class representatives',
         'gap_choices_optional': OPT_Q if q else OPT_T,
         'gap_choices_mandatory': MAN_Q if q else MAN_T,
         'lead_trail_choices': [LEAD_Q, TRAIL_Q] if q else [LEAD_T, LEAD_T],
@@ -481,6 +491,8 @@ ORD_ROUTES = [
     ('parseStyle-on', lambda n, v: _r_parsestyle(n, v, True)), ('parseStyle-off', lambda n, v: _r_parsestyle(n, v, False)),
 ]  # fmt: skip
 FF_ROUTES = [('ff-setProperty', _r_ff_setprop), ('ff-style-text', _r_ff_styletext)]
+# quick tier, pairs that are neither valid nor the representative of their value class
+LIGHT_ROUTES = {'setProperty', 'cssText', 'sheet-off', 'parseStyle-off', 'ff-setProperty'}
 
 
 def route(fn, *a):
@@ -589,10 +601,15 @@ class Pair:
                 # value per class get every single deviation
                 ups = [x[0] for x in sps if x[1].startswith('case-upper@') and x[1] != 'case-upper@name']
                 light = {'canon', ups[-1] if ups else None, next((x[0] for x in sps if x[1] == 'comment@trail'), None)}
+                if ctx == 'ff':
+                    light = {'canon'}
             for id_, dev, sp in sps:
-                if q and id_ not in light and not (entry.get('rep') or self.base.get(ctx, {}).get('v') is True):
+                # heavy pairs: valid in this context, or the representative (first menu entry) of their value class
+                heavy = bool(entry.get('rep') or self.base.get(ctx, {}).get('v') is True)
+                k2 = '+' in id_
+                if not heavy and ((q and id_ not in light) or k2 or (ctx == 'ff' and dev.startswith('ws@'))):
                     continue
-                full = (not q) or id_ in ('canon', 'prio.0', 'trail.0')
+                full = (not k2 and (heavy or ctx == 'ord')) if not q else (id_ == 'canon' or (heavy and id_ in ('prio.0', 'trail.0')))
                 o = self.parsed(ctx, id_, dev, sp, seen_ser, full)
                 if id_ == 'canon':
                     if o is None:
@@ -625,9 +642,11 @@ class Pair:
                         elif self.want(oid):
                             self.compare('C13.routes', f'ord|route:registry(raw text)|{dev}', oid, self.raw, v,
                                          f'cssutils.profile.validate({name!r}, {sp["val"]!r})')  # fmt: skip
-                if (not q or id_ == 'canon') and sp['value_only'] and sp['name'] == name:
+                if (id_ == 'canon' or (not q and not k2)) and sp['value_only'] and sp['name'] == name:
                     vtext = sp['lead'] + sp['val'] + sp['trail']
                     for rname, fn in ORD_ROUTES if ctx == 'ord' else FF_ROUTES:
+                        if not heavy and rname not in LIGHT_ROUTES:
+                            continue
                         oid = f'{ctx}.route:{rname}|{id_}'
                         if self.want(oid):
                             v = route(fn, name, vtext)
@@ -691,7 +710,7 @@ class Pair:
             if exp and '+' in text and same_cfg and same_cfg.get(bare) == (True, True) and ref.verdict(name, bare) is True:
                 key = f'table|{what}|explicit-plus-sign|{ess}'  # the same value without "+" is accepted
             elif exp and cfg == 'all-profiles' and other_cfg and other_cfg.get(text) == (True, True):
-                key = f'table|{what}|only-while-css3-profiles-are-registered|{ess}'  # accepted once only CSS 2.1 is registered
+                key = f'table|{what}|only-while-css3-profiles-are-registered|{ess}'  # accepted by a registry without the CSS3 profile(s)
         elif not d_ok:
             key = f'dom-only|{what}|{ess}' + ('' if isinstance(dom, bool) else '|' + fmt(dom))
         else:
@@ -711,36 +730,50 @@ def _dom_and_raw(name, text):
     return bool(p.valid), raw, bool(cssutils.profile.validate(name, p.value))
 
 
+def _observe_private(res, name, items, oid, only, check_ser):
+    """(dom, raw) of every item in the registry that is currently installed"""
+    obs = {}
+    for entry, dom, raw in items:
+        pr = Pair(res, name, entry, 'quick')
+        ok, r = _call_nopristine(_dom_and_raw, name, entry['text'])
+        if not ok:
+            if r != 'dropped':
+                pr.crash(oid, r, entry['text'])
+                continue
+            ok2, rawp = _call_nopristine(lambda: bool(cssutils.profile.validate(name, entry['text'])))
+            r = ('dropped', rawp if ok2 else False, None)
+        d, rawp, ser = r
+        obs[entry['text']] = (d, rawp)
+        if check_ser:
+            res.outcomes.add(h64(('g21', entry['cls'], fmt(d), rawp)))
+            if ser is not None and only in (None, entry['text']):
+                pr.compare('C13.routes', 'css21-only|route:registry(Property.value)|canonical', oid, d, ser, entry['text'])
+    return obs
+
+
 def grammar_pass(res, name, items, tier, only=None):
     """items: [(entry, dom verdict, raw verdict)] observed with all profiles active.  Observes the same pairs once more in a registry
-    that knows only CSS 2.1 (if that profile defines the name), then evaluates C13.grammar in both configurations.
+    that knows only CSS 2.1 (if that profile defines the name; otherwise, as a counterfactual for colour properties, in the registry
+    without CSS Color Level 3), then evaluates C13.grammar.
     `only`: judge only this value text (replay; the other items are the counterfactual partners)."""
     obs_all = {e['text']: (dom, raw) for e, dom, raw in items}
-    obs_21 = {}
+    obs_21, obs_other = {}, {}
     with OnlyCSS21() as known21:
-        if name in known21:
+        in21 = name in known21
+        if in21:
             res.sets['grammar21.names'].add(name)
-            for entry, dom, raw in items:
-                pr = Pair(res, name, entry, tier)
-                ok, r = _call_nopristine(_dom_and_raw, name, entry['text'])
-                if not ok:
-                    if r != 'dropped':
-                        pr.crash('grammar21', r, entry['text'])
-                        continue
-                    ok2, raw21 = _call_nopristine(lambda: bool(cssutils.profile.validate(name, entry['text'])))
-                    r = ('dropped', raw21 if ok2 else False, None)
-                d21, raw21, ser21 = r
-                obs_21[entry['text']] = (d21, raw21)
-                res.outcomes.add(h64(('g21', entry['cls'], fmt(d21), raw21)))
-                if ser21 is not None and only in (None, entry['text']):
-                    pr.compare('C13.routes', 'css21-only|route:registry(Property.value)|canonical', 'grammar21', d21, ser21, entry['text'])
+            obs_21 = obs_other = _observe_private(res, name, items, 'grammar21', only, True)
         else:
             res.counters['grammar21.names-not-in-css21-profile'] += 1
+    if not in21 and 'color' in ref.SIMPLE[name][1]:
+        with PrivateRegistry(drop=['CSS Color Module Level 3']) as names:
+            if name in names:
+                obs_other = _observe_private(res, name, items, 'grammar', only, False)
     for entry, dom, raw in items:
         if only not in (None, entry['text']):
             continue
         pr = Pair(res, name, entry, tier)
-        found = pr.grammar(dom, raw, 'all-profiles', same_cfg=obs_all, other_cfg=obs_21)
+        found = pr.grammar(dom, raw, 'all-profiles', same_cfg=obs_all, other_cfg=obs_other)
         if entry['text'] in obs_21:
             d21, raw21 = obs_21[entry['text']]
             pr.grammar(d21, raw21, 'css21-only', already=found, same_cfg=obs_21)
@@ -930,9 +963,12 @@ def resolution_cases():
 # grammar with only CSS 2.1 registered
 
 
-class OnlyCSS21:
-    """`with OnlyCSS21() as names:` - a private registry in which only 'CSS Level 2.1' is registered (every other profile
-    removed through removeProfile) takes the place of cssutils.profile; the shipped registry object is put back untouched."""
+class PrivateRegistry:
+    """`with PrivateRegistry(keep=[...]) as names:` / `PrivateRegistry(drop=[...])` - a private Profiles() object from which profiles
+    were removed through removeProfile() takes the place of cssutils.profile; the shipped registry object is put back untouched."""
+
+    def __init__(self, keep=None, drop=()):
+        self.keep, self.drop = keep, drop
 
     def __enter__(self):
         guard.pristine(profiles=True)
@@ -941,7 +977,7 @@ class OnlyCSS21:
         self.orig = cssutils.profile
         priv = Profiles(log=cssutils.log)
         for p in list(priv.profiles):
-            if p != CSS21:
+            if (self.keep is not None and p not in self.keep) or p in self.drop:
                 priv.removeProfile(p)
         cssutils.profile = priv
         return set(priv.knownNames)
@@ -950,6 +986,10 @@ class OnlyCSS21:
         cssutils.profile = self.orig
         guard.pristine(profiles=True)
         return False
+
+
+def OnlyCSS21():
+    return PrivateRegistry(keep=[CSS21])
 
 
 # ----------------------------------------------------------------------------------------
